@@ -29,21 +29,22 @@ type c04Input struct {
 	Src   string `json:"src"`
 	Seed  int64  `json:"seed"`
 	Dens  int    `json:"density"`
-	Kinds string `json:"kinds"` // which decoration kinds are used: b(lock) l(ine) n(ewline)
+	Kinds string `json:"kinds"`                // which decoration kinds are used: b(lock) l(ine) n(ewline)
 	Shape string `json:"shape_edit,omitempty"` // an edit applied to the parsed tree before anything else: it leaves a tree that no parse produces (c04ShapeEdit)
 }
 
 // c04ShapeEdit: trees that the decorator never produces but edits do.  The property speaks of any
 // tree (parsed or hand-built): the oracle below treats the edited tree like a parsed one.  Returns
 // how many nodes were changed.
-//   indexlist-truncate      every IndexListExpr keeps only its first index (the parser gives
-//                           IndexExpr for one index, so IndexListExpr with one index only arises so)
-//   indexlist-apply-delete  the same through dstutil.Apply + Cursor.Delete
-//   indexlist-keep-last     every IndexListExpr keeps only its last index
-//   indexlist-from-index    every IndexExpr becomes an IndexListExpr with that one index, keeping
-//                           its decorations point by point (Index -> Indices)
-//   call-drop-args / composite-drop-elts / fieldlist-drop-to-one: lists reduced by an edit while
-//                           the decorations of the list node stay
+//
+//	indexlist-truncate      every IndexListExpr keeps only its first index (the parser gives
+//	                        IndexExpr for one index, so IndexListExpr with one index only arises so)
+//	indexlist-apply-delete  the same through dstutil.Apply + Cursor.Delete
+//	indexlist-keep-last     every IndexListExpr keeps only its last index
+//	indexlist-from-index    every IndexExpr becomes an IndexListExpr with that one index, keeping
+//	                        its decorations point by point (Index -> Indices)
+//	call-drop-args / composite-drop-elts / fieldlist-drop-to-one: lists reduced by an edit while
+//	                        the decorations of the list node stay
 func c04ShapeEdit(f *dst.File, shape string) int {
 	n := 0
 	switch shape {
@@ -433,7 +434,7 @@ func lastTokenPos(n ast.Node) token.Pos {
 func c04CommentFieldMultiline(c *Ctx) {
 	type shape struct {
 		name, src string
-		list func(f *dst.File) *dst.FieldList
+		list      func(f *dst.File) *dst.FieldList
 	}
 	fd := func(f *dst.File) *dst.FuncDecl { return f.Decls[len(f.Decls)-1].(*dst.FuncDecl) }
 	shapes := []shape{
